@@ -15,3 +15,38 @@ package retry
 //@ func AsyncFifoRetry.Size() (result)
 //@   assumed
 //@   pure
+
+// ---- C04 / C09: the repair of writes with an unknown outcome ----
+// pending (declared in package backend) is the revision dealt by the current activity and not
+// yet reported; the repair deals a fresh revision and must always report it.
+
+//@ func getter(ctx, key) (val, modRevision, err)
+//@   assumed
+//@   pure
+
+//@ func dispatcher(ctx, key, val, revision, preRevision, valid, eventType, err)
+//@   assumed
+//@   requires [range] revision < 0x8000000000000000
+//@   requires [after-batch] !batch_open
+//@   modifies ghost.pending []atomic.Value
+//@   ensures [reported] revision != 0 && revision == old(pending) ==> pending == 0
+//@   ensures [zero-ignored] revision == 0 ==> pending == old(pending)
+
+//@ pred wf_retry(a) = a != nil && a.queue != nil && a.coder != nil && a.store != nil && a.metrics != nil && a.tso != nil && a.getter != nil && a.dispatcher != nil
+
+//@ func (*asyncFifoRetryImpl).overwrite(ctx, key, prevOpRev) (rev, err)
+//@   props C04 C09
+//@   requires wf_retry(a) && pending == 0 && !batch_open
+//@   modifies ghost.pending ghost.max_issued ghost.bw_n ghost.bw_kind ghost.bw_key ghost.bw_val ghost.bw_old ghost.bw_ttl ghost.commits ghost.last_batch ghost.last_err ghost.batch_open ghost.floor ghost.floor_set
+//@   ensures [dealt-is-returned] pending == rev
+//@   ensures [range] rev == 0 || rev < 0x8000000000000000
+//@   ensures [closed] !batch_open
+//@   ensures [at-most-one-batch] commits == old(commits) || (commits == old(commits)+1 && last_err == err && bw_n[last_batch] == 2 && rev != 0)
+//@   ensures [no-write-without-revision] rev == 0 ==> commits == old(commits)
+
+//@ func (*asyncFifoRetryImpl).retry(ctx) (breakLoop)
+//@   props C04 C09
+//@   nosafety
+//@   requires wf_retry(a) && pending == 0 && !batch_open
+//@   modifies inferred:(*asyncFifoRetryImpl).retry
+//@   ensures [every-dealt-revision-reported] pending == 0
